@@ -756,16 +756,17 @@ func c04r5(p *Program, r *Report) {
 			continue
 		}
 		info := fi.Pkg.TypesInfo
-		var best []ByteRead
+		// the widest decoding in the function: a shift chain or an encoding/binary read
+		var bestD fixedDecoding
 		ast.Inspect(fi.Decl.Body, func(x ast.Node) bool {
 			if e, ok := x.(ast.Expr); ok {
-				if terms, ok := parseOrChain(info, e); ok && len(terms) > len(best) {
-					best = terms
+				if d, ok := decodingOf(info, e); ok && d.Width > bestD.Width {
+					bestD = d
 				}
 			}
 			return true
 		})
-		lo, n, be := isBigEndian(best)
+		lo, n, be := bestD.Offset, bestD.Width, bestD.BigEndian
 		r.Check(be && n == w.width && lo == 0, fi.Decl, w.name+" is big-endian, "+itoa(w.width)+" bytes", fmt.Sprintf("%d bytes from offset %d", n, lo), w.name+" does not combine "+itoa(w.width)+" bytes big-endian from offset 0")
 		// advances the buffer by the same width (directly or through a helper that advances by its argument)
 		sum := bufAdvance(p, fi, 0)
